@@ -465,6 +465,8 @@ def c04_alphabet(g, slots):
                 A.append(g.create(slot, g.shape(fn=F1, mk1=mk), obj=0, k1=1, lo=b[0], hi=b[1]))
             A.append(g.create(slot, g.shape(mock='MV', fn=F1, mk1='EQ'), obj=2, k1=1, lo=b[0], hi=b[1]))
         A.append(g.create(slot, g.shape(fn=F1, mk1='ANY', seqar=1), obj=0, lo=1, hi=1, s1=0))
+        A.append(g.create(slot, g.shape(fn=F1, mk1='EQ', tform='RT1'), obj=0, k1=1, lo=2, hi=2))                 # RT_TIMES(2)
+        A.append(g.create(slot, g.shape(fn=F1, mk1='EQ', tform='ALLOW', vform=True), obj=0, k1=1, lo=0, hi=INF))   # NAMED_ALLOW_CALL_V(m, f(1)) - the two-argument variadic form
         A.append(g.create(slot, g.shape(fn=F2, mk1='EQ', mk2='ANY'), obj=0, k1=1, lo=2, hi=2))
         A.append(g.release(slot))
     A += [g.call(0, F1, 1), g.call(0, F1, 0), g.call(2, F1, 1), g.call(2, F1, 0), g.call(3, F1, 1), g.call(0, F2, 1, 1), g.call(0, F2, 0, 1)]
@@ -561,6 +563,9 @@ def plans_C08(g, tier):
                                 sm = tuple(sv) + (0,) * (3 - s_)
                                 sh_shadow = shadow if fn == F1 else (shadow_v if fn == V1 else (shadow_r if fn == R1 else shadow_cr))
                                 pre.append([allow_g, sh_shadow, g.create(0, sh, obj=0, lo=1, hi=2, wmode=wm, semode=sm, actmode=am)])
+                                if w >= 2 and am == 0 and act in ('RET', 'NONE') and any(x != 0 for x in wv):
+                                    # no older expectation to fall back on: a turned-down call is a no-match report, which states the first failing WITH
+                                    pre.append([allow_g, g.create(0, sh, obj=0, lo=1, hi=2, wmode=wm, semode=sm, actmode=am)])
                                 if w + s_ >= 1 and am == 0 and all(x != 3 for x in sv) and act in ('RET', 'NONE', 'THROW_INT'):
                                     shv = g.shape(fn=fn, mk1='ANY', nwith=w, nse=s_, tform='RT', act=act, clauses=clauses, vform=True)
                                     pre.append([allow_g, sh_shadow, g.create(0, shv, obj=0, lo=1, hi=2, wmode=wm, semode=sm, actmode=am)])
